@@ -58,6 +58,11 @@ func (cfg *Config) merge(src *Config) error {
 		return err
 	}
 
+	// mergo leaves the already populated Variables container untouched
+	if cfg.Variables != nil && src.Variables != nil {
+		cfg.Variables = cfg.Variables.Merge(src.Variables)
+	}
+
 	return nil
 }
 
